@@ -13,7 +13,7 @@ import (
 func init() { props["C41"] = runC41 }
 
 func runC41(h *hx.H) {
-	h.Rule = "toposort: every digraph on <=3 (quick) / <=4 (thorough) nodes x every ordered root list of <=2 nodes (duplicates allowed); trie: every ordered list of <=3 keys over strings of length <=3 from {a,b} x every query of length <=4, plus growth families that force the node index width to grow; non-trivial = graph with >=1 edge / key set with a shared prefix"
+	h.Rule = "toposort: every digraph on <=3 (quick) / <=4 (thorough) nodes x every ordered root list of <=2 nodes (duplicates allowed), each sorted on a fresh Sorter and on one used before (a complete iteration, or one the consumer left after 1 or 2 nodes); trie: every ordered list of <=3 keys over strings of length <=3 from {a,b} x every query of length <=4, plus growth families that force the node index width to grow; non-trivial = graph with >=1 edge / key set with a shared prefix"
 	maxN := 3
 	if h.Thorough() {
 		maxN = 4
@@ -108,19 +108,51 @@ func checkTopo(h *hx.H, id string, n, m int, roots []int) {
 	if h.WantSample() && edges >= 3 && !cyclic {
 		h.Sample(map[string]any{"case": id, "toposort": desc()})
 	}
+	dag := func(i int) iter.Seq[int] {
+		return func(yield func(int) bool) {
+			for j := 0; j < n; j++ {
+				if adj(i, j) && !yield(j) {
+					return
+				}
+			}
+		}
+	}
+	// The sort under test runs on a Sorter in its initial state and on one that was used before:
+	// a complete iteration, or one that the consumer left after 1 or 2 nodes.
+	for prior := 0; prior < 4; prior++ {
+		if !sortOnce(h, id, desc, n, roots, adj, dag, reach, cyclic, prior) {
+			return
+		}
+	}
+}
+
+func sortOnce(h *hx.H, id string, desc func() string, n int, roots []int, adj func(i, j int) bool, dag func(int) iter.Seq[int], reach []bool, cyclic bool, prior int) bool {
+	if prior > 0 {
+		id += fmt.Sprintf("/after-%s", []string{"", "complete-iteration", "break-after-1", "break-after-2"}[prior])
+		inner := desc
+		desc = func() string {
+			return inner() + " on a Sorter used before (" + []string{"", "complete iteration", "iteration left after 1 node", "iteration left after 2 nodes"}[prior] + ")"
+		}
+		h.State(1)
+	}
 	var out []int
 	var panicked any
 	func() {
 		defer func() { panicked = recover() }()
-		seq := toposort.Sort(roots, func(i int) int { return i }, func(i int) iter.Seq[int] {
-			return func(yield func(int) bool) {
-				for j := 0; j < n; j++ {
-					if adj(i, j) && !yield(j) {
-						return
+		sorter := toposort.Sorter[int, int]{Key: func(i int) int { return i }}
+		seq := sorter.Sort(roots, dag)
+		if prior > 0 {
+			func() {
+				defer func() { recover() }() // (a cyclic input panics: recorded finding, reported by prior == 0)
+				k := 0
+				for range seq {
+					k++
+					if prior > 1 && k == prior-1 {
+						break
 					}
 				}
-			}
-		})
+			}()
+		}
 		steps := 0
 		for v := range seq {
 			out = append(out, v)
@@ -136,7 +168,7 @@ func checkTopo(h *hx.H, id string, n, m int, roots []int) {
 		} else {
 			h.Violate("toposort-panic", id, fmt.Sprintf("%s: panic: %v", desc(), panicked), nil)
 		}
-		return
+		return false
 	}
 	pos := make([]int, n)
 	for i := range pos {
@@ -145,18 +177,18 @@ func checkTopo(h *hx.H, id string, n, m int, roots []int) {
 	for k, v := range out {
 		if v < 0 || v >= n || !reach[v] {
 			h.Violate("toposort-unreachable", id, fmt.Sprintf("%s: yields %d which is not reachable; output %v", desc(), v, out), nil)
-			return
+			return false
 		}
 		if pos[v] != -1 {
 			h.Violate("toposort-duplicate", id, fmt.Sprintf("%s: yields %d twice; output %v", desc(), v, out), nil)
-			return
+			return false
 		}
 		pos[v] = k
 	}
 	for i := 0; i < n; i++ {
 		if reach[i] && pos[i] == -1 {
 			h.Violate("toposort-missing", id, fmt.Sprintf("%s: reachable node %d not yielded; output %v", desc(), i, out), nil)
-			return
+			return false
 		}
 	}
 	if !cyclic {
@@ -164,11 +196,12 @@ func checkTopo(h *hx.H, id string, n, m int, roots []int) {
 			for j := 0; j < n; j++ {
 				if reach[i] && adj(i, j) && pos[j] > pos[i] {
 					h.Violate("toposort-order", id, fmt.Sprintf("%s: %d yielded before its child %d; output %v", desc(), i, j, out), nil)
-					return
+					return false
 				}
 			}
 		}
 	}
+	return true
 }
 
 func runTrie(h *hx.H) {
